@@ -7,7 +7,8 @@
    Reload call (ro i) and of the i-th Plus API call (ao i); every theorem quantifies over all
    such total functions, i.e. failures are injected at every call index. *)
 From Coq Require Import List ZArith String Bool Arith.
-From NIC Require Import Base.SMap Reload.Model Reload.Proofs Reload.ProofsCtl.
+From NIC Require Import Base.SMap Reload.Model Reload.Proofs Reload.ProofsCtl Reload.ProofsRetry.
+From NIC Require Reload.Cases.
 Import ListNotations.
 Open Scope list_scope.
 
@@ -250,6 +251,28 @@ Example C12_skip_reload_leaves_change :
   let '(s2, x) := step (env_ok false) s1 (ODelete KIng "default-a" true) in
   enabled s2 = true /\ oerr x = ENone /\ dirty s1 = false /\ dirty s2 = true /\ applied false (log x) = false.
 Proof. vm_compute. repeat split; reflexivity. Qed.
+
+(* Retry ("no change left unapplied" across a failed operation): an endpoints operation that returns
+   without error with reloads enabled leaves nothing pending whatever was pending before it -- in
+   particular the change written by a preceding endpoints operation whose API push and fall-back
+   reload failed: its log ends in a successful reload or (Plus) is made of successful API pushes. *)
+Theorem C12_endpoints_retry_clears_pending :
+  forall e s k rs s' x p,
+    step e s (OEndpoints k rs) = (s', x) ->
+    enabled s' = true -> oerr x = ENone -> endp_pushes (OEndpoints k rs) = true ->
+    negb (pend_scan p (log x)) || (plus e && forallb api_ok (log x) && existsb is_api (log x)) = true.
+Proof. exact endpoints_clear_pending. Qed.
+Print Assumptions C12_endpoints_retry_clears_pending.
+
+(* The decidable clause S6 that is evaluated on the implementation's log holds of any two consecutive
+   operations of the model, for every environment (every placement of reload and API failures). *)
+Theorem C12_model_satisfies_retry_clause :
+  forall e s po o s1 x1 s2 x2,
+    step e s po = (s1, x1) -> step e s1 o = (s2, x2) -> endp_pushes o = true ->
+    Reload.Cases.retry_ok (plus e) po (log x1, Reload.Cases.err_code (oerr x1), enabled s1)
+                               o (log x2, Reload.Cases.err_code (oerr x2), enabled s2) = true.
+Proof. exact model_retry_ok. Qed.
+Print Assumptions C12_model_satisfies_retry_clause.
 
 (* a batch of three tasks at the controller in which a file changes: the draining sync reloads *)
 Definition ex_task (k : tkind) (q : nat) (w : list op) (f : bool) : task :=
